@@ -276,14 +276,16 @@ func (dt DateTime) Equal(dt2 DateTime) bool {
 	return dt.dateTime.Format(string(dt.l)) == dt2.dateTime.Format(string(dt2.l))
 }
 
-func (dt DateTime) getComponents() []int {
-	return []int{
-		dt.dateTime.Year(),
-		int(dt.dateTime.Month()),
-		dt.dateTime.Day(),
-		dt.dateTime.Hour(),
-		dt.dateTime.Minute(),
-		dt.dateTime.Second()*1000000000 + dt.dateTime.Nanosecond(),
+// The components are 64 bits wide: seconds and nanoseconds share one
+// component, which does not fit an int on 32-bit platforms.
+func (dt DateTime) getComponents() []int64 {
+	return []int64{
+		int64(dt.dateTime.Year()),
+		int64(dt.dateTime.Month()),
+		int64(dt.dateTime.Day()),
+		int64(dt.dateTime.Hour()),
+		int64(dt.dateTime.Minute()),
+		int64(dt.dateTime.Second())*1000000000 + int64(dt.dateTime.Nanosecond()),
 	}
 }
 
